@@ -90,3 +90,31 @@ Definition load (fs : fsys) (cwd name start : string) : load_res :=
   | FNone => ImportErr
   | FNotFound => NotFound
   end.
+
+(** ** One loader object used several times.
+
+    [FilesystemLoader(start=s)] stores only the start it was *given*; with no
+    given start (and no [tasks.search_root]) the [start] property re-reads the
+    working directory at every use, so each step of a session -- reading
+    [.start], or [load(name)] -- is answered from the working directory of
+    that step, whatever happened before (earlier reads, earlier loads, also
+    ones that ended in CollectionNotFound). *)
+Inductive lstep :=
+| LStart (cwd : string)        (* loader.start, read in working directory cwd *)
+| LLoad (cwd : string).        (* loader.load(name), in working directory cwd *)
+
+Inductive lres :=
+| RStart (s : string)
+| RLoad (r : load_res).
+
+Definition eff_start (given : option string) (cwd : string) : string :=
+  match given with Some s => s | None => cwd end.
+
+Definition step_run (fs : fsys) (given : option string) (name : string) (st : lstep) : lres :=
+  match st with
+  | LStart cwd => RStart (eff_start given cwd)
+  | LLoad cwd => RLoad (load fs cwd name (eff_start given cwd))
+  end.
+
+Definition session_run (fs : fsys) (given : option string) (name : string) (steps : list lstep)
+  : list lres := map (step_run fs given name) steps.
